@@ -1,4 +1,7 @@
-"""E9 -- effect analysis: every store / mutating call in a function, classified by receiver."""
+"""E9 -- effect analysis: every store / mutating call in a function, classified by receiver; freshness of locals
+(flow-insensitive ``fresh_locals``, flow-sensitive ``fresh_at``, ``returns_fresh`` for analysed helpers); and ``Flow``:
+reaching definitions / value flow of locals and self-attributes on the CFG (leaves with path conditions, resolution of
+named temporaries, aliases)."""
 import ast
 
 from .core import norm
@@ -112,6 +115,8 @@ def fresh_locals(repo, fi):
         vals = assigned_value(fi.node, name)
         ok = bool(vals)
         for st, v, idx in vals:
+            if isinstance(idx, int) and not _plain_unpack(st, v):
+                idx = 'unpack'
             if not _is_fresh_expr(repo, fi, v, idx, fresh):
                 ok = False
         if ok:
@@ -119,7 +124,22 @@ def fresh_locals(repo, fi):
     return fresh
 
 
+def _plain_unpack(st, v):
+    """``a, b = x, y``: a display of the same length on both sides, no stars -- positions correspond."""
+    if not isinstance(st, ast.Assign) or not isinstance(v, (ast.Tuple, ast.List)):
+        return False
+    for t in st.targets:
+        if isinstance(t, (ast.Tuple, ast.List)):
+            if len(t.elts) != len(v.elts) or any(isinstance(e, ast.Starred) for e in list(t.elts) + list(v.elts)):
+                return False
+    return True
+
+
 def _is_fresh_expr(repo, fi, v, idx, fresh):
+    if isinstance(idx, int) and isinstance(v, (ast.Tuple, ast.List)) and 0 <= idx < len(v.elts) and \
+            not any(isinstance(e, ast.Starred) for e in v.elts):
+        # a, b = list(x), list(y): position by position (targets without a star: assigned_value gives plain indices)
+        return _is_fresh_expr(repo, fi, v.elts[idx], None, fresh)
     if idx is not None:
         return False
     if isinstance(v, (ast.List, ast.Dict, ast.Set, ast.Tuple, ast.ListComp, ast.DictComp, ast.SetComp, ast.GeneratorExp,
@@ -135,5 +155,445 @@ def _is_fresh_expr(repo, fi, v, idx, fresh):
             kind, m, obj = repo.resolve(fi.mod, f.id)
             if kind == 'class':
                 return True
+            if kind == 'func' and m is not None and not m.external:
+                return returns_fresh(repo, obj)
+        elif isinstance(f, ast.Attribute) and isinstance(f.value, ast.Name) and f.value.id in ('self', 'cls') and fi.cls is not None:
+            meth = repo.find_method(fi.cls, f.attr)
+            if meth is not None and not meth.mod.external:
+                return returns_fresh(repo, meth)
         return False
     return False
+
+
+def callee_of(repo, fi, call):
+    """FuncInfo of the analysed function a call names (module-level function, or method through self / cls); None
+    for anything else (builtins, third-party, computed callees)."""
+    f = call.func if isinstance(call, ast.Call) else None
+    try:
+        if isinstance(f, ast.Name):
+            kind, m, obj = repo.resolve(fi.mod, f.id)
+            if kind == 'func' and m is not None and not m.external:
+                return obj
+        elif isinstance(f, ast.Attribute) and isinstance(f.value, ast.Name) and f.value.id in ('self', 'cls') and fi.cls is not None:
+            meth = repo.find_method(fi.cls, f.attr)
+            if meth is not None and not meth.mod.external:
+                return meth
+    except Exception:
+        return None
+    return None
+
+
+def fresh_at(repo, fi, fl, name, stmt):
+    """At statement ``stmt`` the local ``name`` can only hold an object allocated in this activation: every definition
+    reaching the statement assigns a fresh expression (flow-sensitive companion of ``fresh_locals``)."""
+    ds = fl.reaching(name, stmt)
+    if not ds:
+        return False
+    a = fi.node.args
+    fresh = fresh_locals(repo, fi)
+    for d in ds:
+        if d.kind == 'entry':
+            if a.kwarg is not None and a.kwarg.arg == name:
+                continue
+            return False
+        v, _ = fl.unpacked(d)
+        if v is None:
+            return False
+        if isinstance(v, ast.Name) and v.id in fresh and v.id != name:
+            continue
+        if not _is_fresh_expr(repo, fi, v, None, fresh):
+            return False
+    return True
+
+
+def returns_fresh(repo, fi, _depth=0):
+    """Every ``return`` of an analysed function hands out an object allocated in that activation (a literal, a
+    container constructor call, a concatenation, or a local that only ever holds such objects) -- the caller's local
+    that receives it is as fresh as one built in place.  Generators and functions without a return are not."""
+    cache = getattr(repo, '_returns_fresh', None)
+    if cache is None:
+        cache = repo._returns_fresh = {}
+    if fi.key in cache:
+        return cache[fi.key]
+    cache[fi.key] = False        # recursion guard
+    ok = _depth < 3
+    rets = [s for s in stmts_of(fi.node) if isinstance(s, ast.Return)]
+    if not rets or any(isinstance(n, (ast.Yield, ast.YieldFrom)) for n in walk_body(fi.node)):
+        ok = False
+    if ok:
+        fresh = fresh_locals(repo, fi)
+        for r in rets:
+            v = r.value
+            if isinstance(v, ast.Name):
+                if v.id not in fresh:
+                    ok = False
+            elif v is None or isinstance(v, ast.Constant) or not _is_fresh_expr(repo, fi, v, None, fresh):
+                ok = False
+    cache[fi.key] = ok
+    return ok
+
+
+# ---------------------------------------------------------------------------------------------- value flow
+# Reaching definitions for locals and ``self.<attr>`` slots of ONE function, on its CFG.  Rules use it to recognise a
+# value by *role* ("what ends up in self.render, under which path conditions") instead of by the name of the local
+# that happens to carry it: named temporaries, values stored straight into the attribute, helper results that
+# the front-end inlined -- all resolve to the same leaves.
+
+class Def(object):
+    """One definition of a slot: kind 'assign' (value known; ``idx`` = position in an unpacked value or None),
+    or an opaque kind ('aug', 'iter', 'with', 'exc', 'del', 'def', 'entry')."""
+    __slots__ = ('key', 'stmt', 'value', 'idx', 'kind', 'handler')
+
+    def __init__(self, key, stmt, value, idx=None, kind='assign', handler=None):
+        self.key, self.stmt, self.value, self.idx, self.kind, self.handler = key, stmt, value, idx, kind, handler
+
+    def __repr__(self):
+        return '<Def %s %s L%s %s>' % (self.key, self.kind, getattr(self.stmt, 'lineno', '?'), norm(self.value)[:50] if self.value is not None else '')
+
+
+class Leaf(object):
+    """A value that can flow into a slot: the expression, the statement that evaluates it, the path conditions
+    collected along the chain of assignments."""
+    __slots__ = ('value', 'stmt', 'conds', 'opaque')
+
+    def __init__(self, value, stmt, conds, opaque=False):
+        self.value, self.stmt, self.conds, self.opaque = value, stmt, conds, opaque
+
+    def __repr__(self):
+        return '<Leaf %s | %s>' % (norm(self.value)[:60], ['%s%s' % ('' if p else 'not ', norm(t)[:40]) for t, p in self.conds])
+
+
+def slot_key(expr):
+    """'x' for a Name, 'self.a' for an attribute of ``self``; None for anything else."""
+    if isinstance(expr, ast.Name):
+        return expr.id
+    if isinstance(expr, ast.Attribute) and isinstance(expr.value, ast.Name) and expr.value.id == 'self':
+        return 'self.' + expr.attr
+    return None
+
+
+def _transparent(v):
+    """Expressions a local may stand for without changing what is computed: names, attribute chains, constants,
+    getattr with constant name, constant subscripts."""
+    if isinstance(v, (ast.Name, ast.Constant)):
+        return True
+    if isinstance(v, (ast.List, ast.Tuple, ast.Dict)) and not (v.keys if isinstance(v, ast.Dict) else v.elts):
+        return True     # empty display (a getattr default)
+    if isinstance(v, ast.Attribute):
+        return _transparent(v.value)
+    if isinstance(v, ast.Subscript):
+        return _transparent(v.value) and isinstance(v.slice, ast.Constant)
+    if isinstance(v, ast.Call) and isinstance(v.func, ast.Name) and v.func.id == 'getattr' and not v.keywords and \
+            len(v.args) in (2, 3) and isinstance(v.args[1], ast.Constant):
+        return all(_transparent(a) for a in v.args)
+    return False
+
+
+class Flow(object):
+    def __init__(self, fi):
+        from .cfg import CFG
+        self.fi = fi
+        c = getattr(fi, '_cfg', None)
+        if c is None:
+            c = fi._cfg = CFG(fi.node)
+        self.cfg = c
+        self.defs = {}
+        self._conds = {}
+        self._reach = {}
+        self.subst = {}      # slot key -> expression a rule has established the slot to stand for (used by resolve)
+        self._collect()
+
+    # -- definitions ---------------------------------------------------------------------------------
+    def _add(self, key, stmt, value, idx=None, kind='assign', handler=None):
+        if key is not None:
+            self.defs.setdefault(key, []).append(Def(key, stmt, value, idx, kind, handler))
+
+    def _nodes(self, d):
+        if d.handler is not None:
+            return self.cfg.handler_nodes(d.handler)
+        return self.cfg.nodes_of(d.stmt)
+
+    def _bind_target(self, t, value, st):
+        if isinstance(t, (ast.Tuple, ast.List)):
+            plain = not any(isinstance(e, ast.Starred) for e in t.elts)
+            if plain and isinstance(value, (ast.Tuple, ast.List)) and len(value.elts) == len(t.elts) and \
+                    not any(isinstance(e, ast.Starred) for e in value.elts):
+                for e, v in zip(t.elts, value.elts):
+                    self._bind_target(e, v, st)
+            else:
+                for i, e in enumerate(t.elts):
+                    if isinstance(e, ast.Starred):
+                        e = e.value
+                    if isinstance(e, (ast.Tuple, ast.List)):
+                        for x in _targets(e):
+                            self._add(slot_key(x), st, value, -1)
+                    else:
+                        self._add(slot_key(e), st, value, i if plain else -1)
+        else:
+            self._add(slot_key(t), st, value)
+
+    def _collect(self):
+        for st in stmts_of(self.fi.node):
+            if isinstance(st, ast.Assign):
+                for t in st.targets:
+                    self._bind_target(t, st.value, st)
+            elif isinstance(st, ast.AnnAssign):
+                if st.value is not None:
+                    self._add(slot_key(st.target), st, st.value)
+            elif isinstance(st, ast.AugAssign):
+                self._add(slot_key(st.target), st, None, kind='aug')
+            elif isinstance(st, (ast.For, ast.AsyncFor)):
+                for t in _targets(st.target):
+                    self._add(slot_key(t), st, st.iter, kind='iter')
+            elif isinstance(st, (ast.With, ast.AsyncWith)):
+                for it in st.items:
+                    if it.optional_vars is not None:
+                        for t in _targets(it.optional_vars):
+                            self._add(slot_key(t), st, it.context_expr, kind='with')
+            elif isinstance(st, ast.Try):
+                for h in st.handlers:
+                    if h.name:
+                        self._add(h.name, st, h.type, kind='exc', handler=h)
+            elif isinstance(st, ast.Delete):
+                for t in st.targets:
+                    self._add(slot_key(t), st, None, kind='del')
+            elif isinstance(st, (ast.FunctionDef, ast.AsyncFunctionDef, ast.ClassDef)):
+                self._add(st.name, st, None, kind='def')
+            elif isinstance(st, (ast.Import, ast.ImportFrom)):
+                for a in st.names:
+                    self._add((a.asname or a.name).split('.')[0], st, None, kind='def')
+            if not isinstance(st, (ast.FunctionDef, ast.AsyncFunctionDef, ast.ClassDef)):
+                hosts = [st] if not hasattr(st, 'body') else [getattr(st, f) for f in ('test', 'iter', 'value') if isinstance(getattr(st, f, None), ast.AST)]
+                for h in hosts:
+                    for n in ast.walk(h):
+                        if isinstance(n, ast.NamedExpr):
+                            self._add(slot_key(n.target), st, n.value)
+
+    def _at_nodes(self, at):
+        if at == 'exit':
+            return [self.cfg.exit]
+        return self.cfg.nodes_of(at)
+
+    def reaching(self, key, at):
+        """Definitions of ``key`` that can be the current one when control is at statement ``at`` (or 'exit').
+        A pseudo definition of kind 'entry' stands for the value on entry (parameter / not yet assigned)."""
+        ck = (key, id(at) if at != 'exit' else 'exit')
+        if ck in self._reach:
+            return self._reach[ck]
+        cfg = self.cfg
+        at_nodes = set(self._at_nodes(at))
+        ds = self.defs.get(key, [])
+        def_nodes = set()
+        for d in ds:
+            def_nodes.update(self._nodes(d))
+        avoid = def_nodes - at_nodes
+        # between a definition and a use that it reaches nothing re-binds the name, so every test of the name's
+        # truth on the way has the outcome known to hold at the use: branches of the other outcome are not on the path
+        if at != 'exit' and ds:
+            want = [p for t, p in self.conds(at) if norm(t) == key]
+            if want and all(p is want[0] for p in want):
+                avoid = avoid | set(nid for nid, t, p in cfg.branches() if norm(t) == key and p is not want[0])
+        out = []
+        for d in ds:
+            srcs = [m for n in self._nodes(d) for m in cfg.succ[n] if (n, m) not in cfg.exc_edges or n in cfg.raise_nodes]
+            # (a definition inside ``at`` itself -- x = f(x) -- reaches only around a cycle: srcs are its successors)
+            if at_nodes & cfg.reach(srcs, avoid=avoid):
+                out.append(d)
+        if at_nodes & cfg.reach([cfg.entry], avoid=avoid):
+            out.append(Def(key, None, None, None, 'entry'))
+        self._reach[ck] = out
+        return out
+
+    def conds(self, stmt):
+        k = id(stmt)
+        if k not in self._conds:
+            self._conds[k] = self.cfg.conds_at_stmt(stmt) if stmt is not None else []
+        return self._conds[k]
+
+    def stmt_of(self, node):
+        cur = node
+        while cur is not None and not isinstance(cur, ast.stmt):
+            cur = self.fi.mod.parents.get(cur)
+        return cur
+
+    # -- resolution ----------------------------------------------------------------------------------
+    def single_def(self, key, at):
+        """The one assignment that defines ``key`` at ``at`` (a Def whose ``value`` names the assigned expression), or None."""
+        ds = self.reaching(key, at)
+        if len(ds) == 1 and ds[0].kind == 'assign':
+            if ds[0].idx is None:
+                return ds[0]
+            v, vat = self.unpacked(ds[0])
+            if v is not None:
+                return Def(key, vat, v, None, 'assign')
+        return None
+
+    def resolve(self, expr, at=None, _depth=0, _seen=()):
+        """Copy of ``expr`` in which every local / self-attribute with exactly one reaching definition of a
+        transparent value (name, attribute chain, getattr, constant) is replaced by that value, recursively.
+        ``at``: the statement evaluating ``expr`` (default: the one containing it)."""
+        import copy
+        if at is None:
+            at = self.stmt_of(expr)
+
+        def rec(e):
+            if isinstance(e, (ast.Lambda, ast.ListComp, ast.SetComp, ast.DictComp, ast.GeneratorExp)):
+                return copy.deepcopy(e)
+            k = slot_key(e)
+            if k is not None and k in self.subst and isinstance(getattr(e, 'ctx', None), ast.Load):
+                return copy.deepcopy(self.subst[k])
+            if k is not None and isinstance(getattr(e, 'ctx', None), ast.Load) and _depth < 10 and k not in _seen and at is not None:
+                d = self.single_def(k, at)
+                if d is not None and _transparent(d.value):
+                    return self.resolve(d.value, d.stmt, _depth + 1, _seen + (k,))
+            if not isinstance(e, ast.AST):
+                return e
+            new = e.__class__()
+            for f, v in ast.iter_fields(e):
+                if isinstance(v, list):
+                    setattr(new, f, [rec(x) if isinstance(x, ast.AST) else x for x in v])
+                elif isinstance(v, ast.AST):
+                    setattr(new, f, rec(v))
+                else:
+                    setattr(new, f, v)
+            return ast.copy_location(new, e) if hasattr(e, 'lineno') else new
+        return rec(expr)
+
+    def text(self, expr, at=None):
+        """Canonical text of an expression: resolved, normalised."""
+        return norm(self.resolve(expr, at))
+
+    def cond_texts(self, conds):
+        """[(canonical text, polarity, test)] for path conditions (tests are resolved where they are evaluated)."""
+        return [(self.text(t), p, t) for t, p in conds]
+
+    def flow_conds(self, d, at):
+        """Branch conditions that hold on every path on which definition ``d`` is still the current one at ``at``
+        (``x = a`` ... ``if not ok(x): x = b`` ... use: ``a`` arrives only through the false branch of the test)."""
+        from .cfg import expand_conds
+        ck = ('fc', id(d.stmt) if d.stmt is not None else 'entry', d.key, id(at) if at != 'exit' else 'exit')
+        if ck in self._reach:
+            return self._reach[ck]
+        cfg = self.cfg
+        at_nodes = set(self._at_nodes(at))
+        def_nodes = set()
+        for x in self.defs.get(d.key, []):
+            def_nodes.update(self._nodes(x))
+        avoid0 = def_nodes - at_nodes
+        if d.kind == 'entry':
+            srcs = [cfg.entry]        # the value on entry (a parameter): paths from the top of the function
+        else:
+            srcs = [m for n in self._nodes(d) for m in cfg.succ[n] if (n, m) not in cfg.exc_edges or n in cfg.raise_nodes]
+        fwd = cfg.reach(srcs, avoid=avoid0)
+        out = []
+        if at_nodes & fwd:
+            region = fwd & cfg.coreach(at_nodes, avoid=avoid0)
+            seen = set()
+            for nd in cfg.nodes:
+                if nd.kind != 'branch' or nd.id not in region or (id(nd.test), nd.pol) in seen:
+                    continue
+                seen.add((id(nd.test), nd.pol))
+                b = set(cfg.branch_nodes(nd.test, nd.pol))
+                nb = set(cfg.branch_nodes(nd.test, not nd.pol))
+                if at_nodes & cfg.reach(srcs, avoid=avoid0 | b):
+                    continue            # the use can be reached without taking this branch
+                if (nb & fwd) and at_nodes & cfg.reach(list(nb & fwd), avoid=avoid0 | b):
+                    continue            # ... or the last evaluation on the way may have had the other outcome
+                after = [m for x in b for m in cfg.succ[x]]
+                mid = (cfg.reach(after, avoid=avoid0 | b) & cfg.coreach(at_nodes, avoid=avoid0 | b)) - at_nodes
+                if cfg._kills(nd.test, mid):
+                    continue
+                out.append((nd.test, nd.pol))
+            out = expand_conds(out)
+        self._reach[ck] = out
+        return out
+
+    def unpacked(self, d):
+        """(value expr, statement) a definition binds -- for ``a, b = t`` with ``t`` a local holding a display of the same
+        length (``t = (x, y)``), the element at the position; (None, None) when the value cannot be named."""
+        if d.kind != 'assign':
+            return None, None
+        if d.idx is None:
+            return d.value, d.stmt
+        if not isinstance(d.idx, int) or d.idx < 0:
+            return None, None
+        v, at = d.value, d.stmt
+        for _ in range(4):
+            k = slot_key(v)
+            if k is None:
+                break
+            sd = self.single_def(k, at)
+            if sd is None:
+                return None, None
+            v, at = sd.value, sd.stmt
+        if isinstance(v, (ast.Tuple, ast.List)) and not any(isinstance(e, ast.Starred) for e in v.elts):
+            tgt = [t for t in getattr(d.stmt, 'targets', []) if isinstance(t, (ast.Tuple, ast.List))]
+            if tgt and all(len(t.elts) == len(v.elts) and not any(isinstance(e, ast.Starred) for e in t.elts) for t in tgt):
+                return v.elts[d.idx], at
+        return None, None
+
+    def leaves(self, expr, at, _conds=(), _depth=0):
+        """Values that can flow into ``expr`` evaluated at ``at`` (statement or 'exit'), following assignments of
+        locals / self-attributes backwards through every reaching definition; a conditional expression contributes
+        both arms with the test added to the conditions."""
+        from .cfg import expand_conds
+        if isinstance(expr, ast.IfExp) and _depth <= 10:
+            out = []
+            for arm, pol in ((expr.body, True), (expr.orelse, False)):
+                extra = [c for c in expand_conds([(expr.test, pol)]) if c not in _conds]
+                out.extend(self.leaves(arm, at, list(_conds) + extra, _depth + 1))
+            return out
+        k = slot_key(expr)
+        if k is None or _depth > 10:
+            return [Leaf(expr, at, list(_conds))]
+        ds = self.reaching(k, at)
+        if not ds:
+            return [Leaf(expr, at, list(_conds), opaque=True)]
+        out = []
+        for d in ds:
+            cs = list(_conds) + [c for c in (self.conds(d.stmt) if d.stmt is not None else []) if c not in _conds]
+            if len(ds) > 1:
+                cs = cs + [c for c in self.flow_conds(d, at) if c not in cs]
+            if d.kind == 'entry':
+                out.append(Leaf(expr, at, cs))      # the parameter / the value on entry itself
+                continue
+            v, vat = self.unpacked(d)
+            if v is None:
+                out.append(Leaf(expr if d.value is None or d.kind != 'assign' else d.value, d.stmt, cs, opaque=True))
+            else:
+                out.extend(self.leaves(v, vat, cs, _depth + 1))
+        return out
+
+    def aliases(self, key):
+        """Texts that denote the same object as slot ``key`` from their assignment on: a slot all of whose definitions are
+        plain copies ``a = b`` of one other slot is an alias of it (and the chained targets of one assignment of each other)."""
+        out = {key}
+        changed = True
+        while changed:
+            changed = False
+            for k, ds in self.defs.items():
+                if not ds or any(d.kind != 'assign' or d.idx is not None for d in ds):
+                    continue
+                srcs = set(slot_key(d.value) if d.value is not None else None for d in ds)
+                v = srcs.pop() if len(srcs) == 1 else None
+                sibs = set()
+                if len(ds) == 1 and isinstance(ds[0].stmt, ast.Assign) and len(ds[0].stmt.targets) > 1:
+                    sibs = set(slot_key(t) for t in ds[0].stmt.targets) - {None}
+                for a, b in [(k, v)] + [(k, s_) for s_ in sibs if s_ != k]:
+                    if b is None:
+                        continue
+                    if (a in out) != (b in out):
+                        # the source must not be re-defined after the copy
+                        if any(self._redefined_after(x, d.stmt) for d in ds for x in (a, b) if x != k):
+                            continue
+                        out.update((a, b))
+                        changed = True
+        return out
+
+    def _redefined_after(self, key, stmt):
+        cfg = self.cfg
+        after = cfg.reach([m for n in cfg.nodes_of(stmt) for m in cfg.succ[n]])
+        for d in self.defs.get(key, []):
+            if d.stmt is not stmt and set(cfg.nodes_of(d.stmt)) & after:
+                return True
+        return False
